@@ -308,6 +308,57 @@ func structuralMutants(seed p7seed, attacker *keys.Key, attackerCertRaw, attacke
 		emit("attributes-emptied", "", t2)
 		// reorder AND re-sign with the right key is done by the caller (needs the victim key)
 	}
+	// --- signer identity confusions (issuer field set to the certificate's *subject*)
+	if seed.Right != nil && !bytes.Equal(seed.Right.RawSubject, seed.Right.RawIssuer) {
+		if st, err := refder.ParseTree(seed.Right.RawSubject); err == nil {
+			t := base.clone()
+			t.signer(0).ias.Kids[0] = st
+			emit("signer-issuer-set-to-certificate-subject", "", t)
+		}
+	}
+	// --- a second signer info whose messageDigest matches replaced content, next to the
+	//     genuine signer info kept byte for byte (its signature still verifies over its own attributes)
+	if sp.attrs != nil && len(base.encap.Kids) >= 2 && base.encap.Kids[1].Tag == 0xA0 && len(base.encap.Kids[1].Kids) >= 1 {
+		for _, where := range []string{"appended", "prepended"} {
+			t := base.clone()
+			c := t.encap.Kids[1].Kids[0]
+			enc := c.Encode()
+			node, _, _ := refder.Parse(enc)
+			content := append([]byte(nil), node.Content...)
+			if len(content) > 0 {
+				content[len(content)-1] ^= 0x01
+			} else {
+				content = []byte{0x05, 0x00}
+			}
+			*c = refder.Tree{Tag: c.Tag, Prim: content}
+			forged := t.signers.Kids[0].Clone()
+			ft := &p7tree{signers: &refder.Tree{Kids: []*refder.Tree{forged}}}
+			fs := ft.signer(0)
+			if fs == nil || fs.attrs == nil {
+				break
+			}
+			if it, err := refder.ParseTree(attackerIssuer); err == nil {
+				fs.ias.Kids[0] = it
+				fs.ias.Kids[1].Prim = attackerSerial
+			}
+			if mi := findAttr(fs.attrs, refp7.OIDMessageDigest); mi >= 0 {
+				h := sha256.Sum256(content)
+				fs.attrs.Kids[mi].Kids[1].Kids[0].Prim = h[:]
+			}
+			fs.sig.Prim = signAttrsWith(attacker, attrsContent(fs.attrs))
+			if where == "appended" {
+				t.signers.Kids = append(t.signers.Kids, forged)
+			} else {
+				t.signers.Kids = append([]*refder.Tree{forged}, t.signers.Kids...)
+			}
+			if t.certs != nil {
+				if ct, err := refder.ParseTree(attackerCertRaw); err == nil {
+					t.certs.Kids = append(t.certs.Kids, ct)
+				}
+			}
+			emit("content-replaced+second-signer-"+where, "genuine signer info untouched; attacker's signer info carries the matching messageDigest", t)
+		}
+	}
 	// --- a second signer entry that is a copy with a broken signature, before the good one
 	{
 		t := base.clone()
@@ -326,4 +377,48 @@ func structuralMutants(seed p7seed, attacker *keys.Key, attackerCertRaw, attacke
 		emit("signers-removed", "", t)
 	}
 	return out
+}
+
+// addForgedSigner appends (or prepends) to t a signer info made by the attacker
+// whose messageDigest matches t's current encapsulated content; the genuine
+// signer info is left byte for byte.
+func addForgedSigner(t *p7tree, attacker *keys.Key, attackerCertRaw, attackerIssuer, attackerSerial []byte, prepend bool) bool {
+	if len(t.encap.Kids) < 2 || len(t.encap.Kids[1].Kids) < 1 || len(t.signers.Kids) < 1 {
+		return false
+	}
+	enc := t.encap.Kids[1].Kids[0].Encode()
+	node, _, err := refder.Parse(enc)
+	if err != nil {
+		return false
+	}
+	forged := t.signers.Kids[0].Clone()
+	ft := &p7tree{signers: &refder.Tree{Kids: []*refder.Tree{forged}}}
+	fs := ft.signer(0)
+	if fs == nil || fs.attrs == nil {
+		return false
+	}
+	it, err := refder.ParseTree(attackerIssuer)
+	if err != nil {
+		return false
+	}
+	fs.ias.Kids[0] = it
+	fs.ias.Kids[1].Prim = attackerSerial
+	mi := findAttr(fs.attrs, refp7.OIDMessageDigest)
+	if mi < 0 {
+		return false
+	}
+	h := sha256.Sum256(node.Content)
+	fs.attrs.Kids[mi].Kids[1].Kids[0].Prim = h[:]
+	fs.sig.Prim = signAttrsWith(attacker, attrsContent(fs.attrs))
+	if prepend {
+		t.signers.Kids = append([]*refder.Tree{forged}, t.signers.Kids...)
+	} else {
+		t.signers.Kids = append(t.signers.Kids, forged)
+	}
+	if t.certs != nil {
+		if ct, err := refder.ParseTree(attackerCertRaw); err == nil {
+			t.certs.Kids = append(t.certs.Kids, ct)
+		}
+	}
+	return true
 }
